@@ -7,6 +7,7 @@ pub mod c06;
 pub mod c08;
 pub mod c09;
 pub mod c10;
+pub mod c11;
 pub mod c12;
 pub mod common;
 
@@ -19,6 +20,7 @@ pub fn run(ctx: &Ctx) -> Option<CheckOutput> {
 		"C08" => c08::run(ctx),
 		"C09" => c09::run(ctx),
 		"C10" => c10::run(ctx),
+		"C11" => c11::run(ctx),
 		"C12" => c12::run(ctx),
 		_ => return None,
 	})
@@ -45,6 +47,7 @@ pub fn replay_file(path: &str) -> i32 {
 			"C08" => c08::replay(case),
 			"C09" => c09::replay(case),
 			"C10" => c10::replay(case),
+			"C11" => c11::replay(case),
 			"C12" => c12::replay(case),
 			_ => Some(format!("no replayer for {prop}")),
 		}
